@@ -64,6 +64,9 @@ func genC13(t *rapid.T) C13Case {
 					s.Exch = genFltExch(t)
 				}
 				s.Exch.BodyLog = false // the accounting laboratory watches the books of the plain instances
+				if s.Exch.Fault == "syn-timeout" {
+					s.Exch.Fault = "dial-timeout" // (the instances with the short dial time-out are not among them either)
+				}
 			}
 			batch = append(batch, s)
 		}
